@@ -10,6 +10,11 @@ one() {
   echo "$id $out"
 }
 export -f one
+order=${2:-fwd}   # "rev": seeds in reverse order and no reverted repairs (a second sweep working from the other end)
+if [ "$order" = rev ]; then
+  ls -d seeded/*/ | sed 's,/$,,' | sort -r | xargs -P $par -I{} bash -c 'one {}'
+  exit 0
+fi
 ls -d seeded/*/ | sed 's,/$,,' | xargs -P $par -I{} bash -c 'one {}'
 # reverted repairs: id -> property that must fire
 while read m p; do
